@@ -7,7 +7,7 @@ RULE = ("random polylines (degree 1, 1..5 segments, 2-D and 3-D, float data, uni
         "curve, points equidistant from two segments, points beyond the ends; random curves of degree 2..3 and rational arcs (soundness conditions "
         "only); every call under a wall-clock cap.  Non-trivial: at least two segments or degree >= 2; distinct = distinct (curve, point)."
         " Also: far points whose two nearest candidates differ by about 3e-6 of the distance, single-span curves that clean() could reduce; one Curve object projected on, given other "
-        "weights through the setter, projected on again; integer knot vectors given as python ints with spans 2..4; real-valued curves (scalar control points) of degree 3..4.")
+        "weights through the setter, projected on again; integer knot vectors given as python ints with spans 2..4; real-valued curves (scalar control points) of degree 3..4; polylines and parabolas made of disjoint pieces (interior knots of multiplicity degree + 1) with points on a piece.")
 EXPLANATION = ("L3: the exact nearest-point oracle for polylines (`geom.nearest`, minimum of the per-segment quadratics over Q, proved optimal) gives "
                "the minimal distance; the returned tuple is checked for non-emptiness, order, range, equal distances (1e-6), minimality, "
                "stationarity of interior non-knot parameters (exact derivative via `rf.evalderiv`), termination and unchanged operands.")
@@ -217,6 +217,28 @@ def run(ctx):
             if len(set(Wp)) == 1:
                 Wp[0] += 1
         run_case(ctx, ser(dict(kind="proj", label=label + ("-rational" if Wp else ""), U=U, P=P, W=Wp, pt=pt)))
+    for i in range(budget(ctx, 24, 300)):
+        # curves made of disjoint pieces (interior knots of multiplicity degree + 1, a valid knot vector): a point taken on one of
+        # the pieces, strictly inside a span, is projected onto itself
+        p = 1 if i % 3 else 2
+        nk = rng.randint(1, 3)
+        ks = sorted(rng.sample(GRID, nk))
+        mults = [rng.randint(1, p + 1) for _ in ks]
+        mults[rng.randrange(nk)] = p + 1
+        U = [F(0)] * (p + 1) + [k for k, m in zip(ks, mults) for _ in range(m)] + [F(1)] * (p + 1)
+        n = kv_info(U)[1]
+        P = [tuple(F(rng.randint(-16, 16), 4) for _ in range(2)) for _ in range(n)]
+        for a in range(n - 1):
+            if P[a] == P[a + 1]:
+                P[a + 1] = tuple(x + 1 for x in P[a + 1])
+        cu = make_curve(U, P, None, scalar=False)
+        bounds = [F(0)] + ks + [F(1)]
+        j = rng.randrange(len(bounds) - 1)
+        j = max(j, mults.index(p + 1) + 1) if rng.random() < 0.7 else j      # mostly on a piece after a jump
+        u = bounds[j] + (bounds[j + 1] - bounds[j]) * F(rng.randint(1, 15), 16)
+        pt = list(pt_canon(cu(u)))
+        run_case(ctx, ser(dict(kind="proj", label="oncurve", U=U, P=P, W=None, pt=pt)))
+        ctx["rec"].count("family", "disjoint-pieces-degree-%d" % p)
     for i in range(budget(ctx, 20, 200)):
         # single-span curves that clean() could simplify: the projection must leave the caller's object alone
         cu, kind = reducible_bezier(rng, 2)
